@@ -172,5 +172,26 @@ def main(argv):
         if d: print(pid, d)
     return 0
 
+
+# ---- the models are pure functions: the library must hold no mutable state that outlives a call -----------------
+STATE_PAT = re.compile(r"thread_local!|\bstatic\s+mut\b|lazy_static!|\b(OnceCell|OnceLock|LazyLock|LazyCell|RefCell|Mutex|RwLock)\b|"
+                       r"\bCell\s*<|\bAtomic[A-Z][A-Za-z0-9]*\b|\bstatic\s+[A-Z_0-9]+\s*:\s*(?!&'static\s+str|&\[|\[|usize|u8|u16|u32|u64|i8|i16|i32|i64|f32|f64|bool|&str)")
+def mutable_statics(repo):
+    """places of the workspace's library sources (comments stripped, tests / target / examples skipped) that declare
+    state outliving a call: thread_local!, static mut, lazy / once cells, interior mutability, atomics"""
+    hits = []
+    for root, dirs, files in os.walk(repo):
+        dirs[:] = [d for d in dirs if d not in ("target", ".git", "tests", "examples", "benches")]
+        if os.sep + "src" not in root + os.sep and not root.endswith("src"):
+            continue
+        for f in files:
+            if not f.endswith(".rs"): continue
+            path = os.path.join(root, f)
+            try: txt = _strip(open(path, errors="replace").read())
+            except OSError: continue
+            for m in STATE_PAT.finditer(txt):
+                hits.append("%s: %s" % (os.path.relpath(path, repo), m.group(0).strip()))
+    return sorted(set(hits))
+
 if __name__ == "__main__":
     sys.exit(main(sys.argv[1:]))
